@@ -10,7 +10,7 @@ CONSTANTS
   SeekMax = 3
   Ops = TRUE
   Hints = {}
-  IterSingleLine = TRUE
+  IterSingleLine = FALSE
   Emit = TRUE
 SPECIFICATION RSpec
 INVARIANT RTypeOK
